@@ -305,8 +305,49 @@ MODEL_TRANSITIONS = {
 # an async invocation of a DBF_PERFORM record that reads DBF_CANCELED: the model allows it (most general client), the
 # library never builds such an object (dispatch_block_perform's record lives on its stack and is invoked directly)
 UNREACHABLE_TRANSITIONS = {(0, 12)}
-# transitions into DISPATCH_CLIENT_CRASH: a run that must survive to dump its trace cannot take them
+# transitions into DISPATCH_CLIENT_CRASH: exercised by the one-process-per-scenario runs of crash_scenarios()
 CRASH_TRANSITIONS = {(0, 1), (6, 1), (11, 1), (17, 1), (21, 1), (25, 1)}
+
+
+CRASH_SCENARIOS = {1: "a second dispatch_block_wait while the first one waits", 2: "direct call after a successful wait",
+                   3: "invocation from a queue after a successful wait", 4: "dispatch_block_wait after two runs",
+                   5: "dispatch_block_notify after two runs",
+                   6: "dispatch_block_wait on an object both run directly and submitted to a queue"}
+
+
+def crash_scenarios():
+    """misuse the library answers with DISPATCH_CLIENT_CRASH, one process per scenario: the model must predict the crash
+    (PCrash reachable at the end of the crashing thread's recorded trace).  returns (mismatches, transitions seen, stats)"""
+    exe = build()
+    mism, seen, stats = [], set(), {}
+    for n, what in sorted(CRASH_SCENARIOS.items()):
+        r = common.run([exe, "crash", str(n)], timeout=120)
+        stats["crash_scenario_%d_rc" % n] = r.returncode
+        if r.returncode != 4:
+            mism.append({"what": "the model ends in DISPATCH_CLIENT_CRASH for '%s' but the library did not crash (rc=%s)"
+                         % (what, r.returncode), "detail": {"scenario": n}})
+            continue
+        other, per = conc.parse_dump(r.stdout)
+        for thr, evs in per.items():
+            tr = [e for e in evs if e.kind != 104]
+            crashing = thr == 0 and n != 3     # the main thread crashes, except scenario 3 (a worker, before any visible event)
+            body = ["Definition tr : list event := [%s]." % "; ".join(e.coq() for e in tr),
+                    "Eval vm_compute in let '(i, d) := conform_crash %d false tr in [i; d]." % tr[0].tid,
+                    "Eval vm_compute in nodup Z.eq_dec (conform_cov_crash %d false tr)." % tr[0].tid]
+            ok, vals, raw = driver.coq_eval("c19_crash_%d_%d" % (n, thr), IMPORTS, "\n".join(body) + "\n", timeout=300)
+            if not ok or len(vals) != 2:
+                raise RuntimeError("coq crash-scenario evaluation failed: " + raw[-1500:])
+            i, d = driver.ints(vals[0])[:2]
+            if i != -1 or (crashing and d != 1):
+                mism.append({"what": "crash scenario '%s': the recorded trace of thread %d is %s by the model" %
+                             (what, thr, "rejected" if i != -1 else "not able to end in DISPATCH_CLIENT_CRASH"),
+                             "detail": {"scenario": n, "rejected_at": i, "trace": [e.brief() for e in tr][-20:]}})
+            elif crashing:
+                for c in driver.ints(vals[1]):
+                    seen.add((c // 100, c % 100))
+        if n == 3:
+            seen.add((0, 1))    # the worker died in its flags read (no visible event): evidence is the exit status
+    return mism, seen, stats
 
 
 def coverage(name, alltr):
@@ -393,10 +434,14 @@ def correspond(ctx):
                          "detail": {"seed": seed, "rounds": rounds, "permille": perm_of.get(seed), "round": rd, "thread": thr,
                                     "self": sv, "rejected_at": i,
                                     "ended_idle": idle, "trace": [e.brief() for e in t][:60]}})
+    # misuse scenarios: the model's crash branches against the library's DISPATCH_CLIENT_CRASH
+    cmism, cseen, cstats = crash_scenarios()
+    mism += cmism
+    total.update(cstats)
     # coverage: transitions of the thread automaton taken by accepted traces (computed by the model), and the
     # API-level branches seen by the Python mirror
     if alltr and not mism:
-        seen = coverage("c19_cov", alltr)
+        seen = coverage("c19_cov", alltr) | cseen
         reach_tr = MODEL_TRANSITIONS - UNREACHABLE_TRANSITIONS
         total["model_transitions_covered"] = "%d/%d" % (len(seen & reach_tr), len(reach_tr))
         total["model_transitions_uncovered"] = ["%s->%s" % (TAGS[a], TAGS[b]) for (a, b) in sorted(reach_tr - seen)]
@@ -404,7 +449,9 @@ def correspond(ctx):
                                                                   % (TAGS[a], TAGS[b]) for (a, b) in sorted(UNREACHABLE_TRANSITIONS)]
         total["model_transitions_unexpected"] = ["%s->%s" % (TAGS.get(a, a), TAGS.get(b, b))
                                                  for (a, b) in sorted(seen - MODEL_TRANSITIONS - CRASH_TRANSITIONS)]
-        total["crash_transitions_not_exercised_by_design"] = ["%s->%s" % (TAGS[a], TAGS[b]) for (a, b) in sorted(CRASH_TRANSITIONS)]
+        total["crash_transitions_covered"] = "%d/%d" % (len(seen & CRASH_TRANSITIONS), len(CRASH_TRANSITIONS))
+        total["crash_transitions_uncovered"] = ["%s->%s%s" % (TAGS[a], TAGS[b], " (needs 2^32 invocations)" if (a, b) == (11, 1) else "")
+                                                for (a, b) in sorted(CRASH_TRANSITIONS - seen)]
     cov = branch_coverage(alltr)
     total["api_branches_covered"] = "%d/%d" % (len(cov["covered"]), len(cov["all"]))
     total["api_branches_uncovered"] = sorted(cov["all"] - cov["covered"])
@@ -418,7 +465,9 @@ def correspond(ctx):
                     "DBF_PERFORM record (white-box) and by dispatch_block_perform; cancel / testcancel / wait(NOW, timed 100us-20ms, "
                     "FOREVER) / notify issued from 2-6 helper threads before the start (queue suspended or not yet submitted), "
                     "while the body is held on a semaphore, after the end, or racing; multi-invocation rounds (direct calls from "
-                    "several threads + async) racing cancel; rounds where a cancel lands inside a timed wait that times out; "
+                    "several threads + async) racing cancel; rounds where a cancel lands inside a timed wait that times out; rounds where "
+                    "the same object is submitted again while dbpd_queue is occupied (async and sync) and where another invocation "
+                    "empties the slot under a held dispatch_sync invocation; "
                     "schedule perturbation inside the library's atomic operations (0/15/40 percent of events).  Every per-thread "
                     "event trace recorded by the DISPATCH_VERIF hook on the private data record and on the private group's "
                     "dg_state is replayed through Block.tstep (subset construction over latent steps) inside Coq; API oracle on "
